@@ -310,6 +310,8 @@ def units(tier):
             for sh in shift_shapes(ss):
                 if tier == "quick" and N in (1, 3) and len(ss) == 2 and sh not in ((), ss):
                     continue
+                if tier == "quick" and N in (3, 4) and len(ss) == 2 and len(sh) == 2 and sh[0] * sh[1] == 4:
+                    continue          # (81+ paths with sqrt(3) arithmetic: thorough tier)
                 if N >= 6 and len(ss) == 2 and sh not in ((), ss, ss[:1]):
                     continue
                 us.append(IntShift(N, ss, sh, cplx=True, crop=False))
@@ -323,8 +325,8 @@ def units(tier):
     # (ii) real-valued shifts
     for N in ((2, 4) if tier == "quick" else (1, 2, 4)):
         for ss, sh in (((), ()), ((2,), (2,)), ((2,), ()), ((2,), (1,)), ((2, 2), (2, 1)), ((2, 2), (2,))):
-            if N >= 4 and len(ss) == 2 and tier == "quick":
-                continue
+            if N >= 4 and (len(ss) == 2 or len(sh) == 1 and sh[0] == 2) and tier == "quick":
+                continue          # (217 paths each: thorough tier)
             us.append(FracShift(N, ss, sh, cplx=True, crop=False))
             us.append(FracShift(N, ss, sh, cplx=(N != 2), crop=True, t0=(N != 4)))
     return us
